@@ -3,22 +3,43 @@
 # Thorough tier, second half: validates the check of <prop> against every seeded
 # mutant kept for that property and against the revert of every repo fix recorded
 # for it (known_findings.jsonl, status fixed).  Each variant is built in a scratch
-# copy outside /repo and /verif and removed at once.  Prints one line per variant;
+# copy outside /repo and /verif and removed at once; up to 6 variants run in
+# parallel, each under a 4-minute analysis budget.  Prints one line per variant;
 # the lines are informational (they judge the checker, not the repository) and do
 # not change the exit status of the property check.
 P=$1
 cd /verif
 export GOFLAGS=-mod=mod GOPROXY=off GOSUMDB=off GOTOOLCHAIN=local GOWORK=off
-for d in seeded/$P-m*/; do
-  [ -d "$d" ] || continue
+export STACKCHECK_BUDGET_SEC=240
+one_mutant() {
+  d=$1; P=$2
   id=$(basename "$d")
   D=$(mktemp -d /var/tmp/sc.XXXXXX)
   rsync -a --exclude .git /repo/ "$D/"
-  if ! (cd "$D" && patch -p1 -s --no-backup-if-mismatch < "/verif/$d/patch.diff" >/dev/null 2>&1); then echo "SELF-CHECK $id NOAPPLY (the mutant no longer applies to this tree)"; rm -rf "$D"; continue; fi
-  if ! (cd "$D" && go build ./... >/dev/null 2>&1); then echo "SELF-CHECK $id NOBUILD"; rm -rf "$D"; continue; fi
+  if ! (cd "$D" && patch -p1 -s --no-backup-if-mismatch < "/verif/$d/patch.diff" >/dev/null 2>&1); then echo "SELF-CHECK $id NOAPPLY (the mutant no longer applies to this tree)"; rm -rf "$D"; return; fi
+  if ! (cd "$D" && go build ./... >/dev/null 2>&1); then echo "SELF-CHECK $id NOBUILD"; rm -rf "$D"; return; fi
   /verif/bin/stackcheck -verif "$D" -repo "$D" -prop "$P" -evidence "$D/ev.json" >/dev/null 2>&1
   if [ $? -eq 1 ]; then echo "SELF-CHECK $id detected"; else echo "SELF-CHECK $id MISSED"; fi
   rm -rf "$D"
+}
+one_revert() {
+  c=$1; P=$2
+  W=$(mktemp -d /var/tmp/sr.XXXXXX)
+  # a plain copy with the commit reverted by patch (no git worktree: several run in parallel)
+  rsync -a --exclude .git /repo/ "$W/"
+  if git -C /repo show "$c" | (cd "$W" && patch -R -p1 -s --no-backup-if-mismatch >/dev/null 2>&1) && (cd "$W" && go build ./... >/dev/null 2>&1); then
+    /verif/bin/stackcheck -verif "$W" -repo "$W" -prop "$P" -evidence "$W/ev.json" >/dev/null 2>&1
+    if [ $? -eq 1 ]; then echo "SELF-CHECK revert-$c detected"; else echo "SELF-CHECK revert-$c MISSED"; fi
+  else
+    echo "SELF-CHECK revert-$c CONFLICT (later fixes touch the same lines)"
+  fi
+  rm -rf "$W"
+}
+N=0
+for d in seeded/$P-m*/; do
+  [ -d "$d" ] || continue
+  one_mutant "${d%/}" "$P" &
+  N=$((N+1)); [ $((N % 6)) -eq 0 ] && wait
 done
 for c in $(python3 -c "
 import json
@@ -28,14 +49,8 @@ for l in open('/verif/known_findings.jsonl'):
     e=json.loads(l)
     if e.get('status')=='fixed' and e.get('property')=='$P': print(e['commit'])
 "); do
-  W=$(mktemp -d /var/tmp/sr.XXXXXX); rmdir "$W"
-  git -C /repo worktree add -q --detach "$W" HEAD 2>/dev/null || { echo "SELF-CHECK revert-$c SKIPPED (no git worktree)"; continue; }
-  if (cd "$W" && git revert --no-edit -n "$c" >/dev/null 2>&1) && (cd "$W" && go build ./... >/dev/null 2>&1); then
-    /verif/bin/stackcheck -verif "$W" -repo "$W" -prop "$P" -evidence "$W/ev.json" >/dev/null 2>&1
-    if [ $? -eq 1 ]; then echo "SELF-CHECK revert-$c detected"; else echo "SELF-CHECK revert-$c MISSED"; fi
-  else
-    echo "SELF-CHECK revert-$c CONFLICT (later fixes touch the same lines)"
-  fi
-  git -C /repo worktree remove --force "$W" >/dev/null 2>&1
+  one_revert "$c" "$P" &
+  N=$((N+1)); [ $((N % 6)) -eq 0 ] && wait
 done
+wait
 exit 0
